@@ -34,20 +34,33 @@ Theorem C18_unravel_key_list_dual : forall ks, py_unravel_key_list ks = cpp_unra
 Proof. exact unravel_key_list_dual. Qed.
 Print Assumptions C18_unravel_key_list_dual.
 
-(* unravel_keys( *keys): the full dual statement is FALSE of the code (finding D1804): natively it is the one-argument alias
-   of unravel_key, under compile it returns a tuple of unravelled keys *)
+(* unravel_keys( *keys) after repair D1804: the Python branch is the one-argument alias of unravel_key as the native binding
+   is -- the full dual statement, on every argument list (any arity, valid keys or not) *)
 From TD Require Import Proofs.C18_KeysExtraP.
-Definition C18_unravel_keys_dual_full_statement : Prop := forall ks, py_unravel_keys ks = cpp_unravel_keys ks.
-Theorem C18_unravel_keys_dual_refuted :
-  (exists ks, py_unravel_keys ks <> cpp_unravel_keys ks)
-  /\ (forall ks, cpp_unravel_keys ks <> KRaise -> py_unravel_keys ks <> cpp_unravel_keys ks).
-Proof. split; [exact unravel_keys_dual_refuted|exact unravel_keys_never_agree]. Qed.
-Print Assumptions C18_unravel_keys_dual_refuted.
+Theorem C18_unravel_keys_dual : forall ks, py_unravel_keys ks = cpp_unravel_keys ks.
+Proof. exact unravel_keys_dual. Qed.
+Print Assumptions C18_unravel_keys_dual.
 
-Theorem C18_unravel_keys_dual_partial : forall k,
-  py_unravel_keys [k] = match cpp_unravel_keys [k] with KOne r => KMany [r] | other => other end.
-Proof. exact unravel_keys_partial. Qed.
-Print Assumptions C18_unravel_keys_dual_partial.
+(* what the alias means: one argument -> the result of unravel_key; any other arity raises on both paths *)
+Theorem C18_unravel_keys_is_unravel_key : forall k,
+  cpp_unravel_keys [k] = match cpp_unravel_key k with RRaise => KRaise | r => KOne r end
+  /\ (forall ks, List.length ks <> 1%nat -> cpp_unravel_keys ks = KRaise /\ py_unravel_keys ks = KRaise).
+Proof. exact unravel_keys_is_unravel_key. Qed.
+Print Assumptions C18_unravel_keys_is_unravel_key.
+
+(* the code before the repair (finding D1804, [py_unravel_keys_unrepaired]) fails the dual statement on EVERY accepted input:
+   natively the bare key, under compile a tuple of keys -- the theorem above has bite *)
+Theorem C18_unravel_keys_unrepaired_refuted :
+  (exists ks, py_unravel_keys_unrepaired ks <> cpp_unravel_keys ks)
+  /\ (forall ks, cpp_unravel_keys ks <> KRaise -> py_unravel_keys_unrepaired ks <> cpp_unravel_keys ks)
+  /\ (forall k, py_unravel_keys_unrepaired [k] = match cpp_unravel_keys [k] with KOne r => KMany [r] | other => other end).
+Proof. split; [exact unravel_keys_unrepaired_refuted|split; [exact unravel_keys_unrepaired_never_agree|exact unravel_keys_unrepaired_partial]]. Qed.
+Print Assumptions C18_unravel_keys_unrepaired_refuted.
+
+Example C18_ex_unravel_keys : py_unravel_keys [KT [KS "a"; KT [KS "b"]]] = KOne (RTup ["a"; "b"]%string)
+  /\ cpp_unravel_keys [KT [KS "a"; KT [KS "b"]]] = KOne (RTup ["a"; "b"]%string)
+  /\ py_unravel_keys [KS "a"; KS "b"] = KRaise /\ py_unravel_keys_unrepaired [KS "a"; KS "b"] = KMany [RStr "a"; RStr "b"]%string.
+Proof. repeat split; reflexivity. Qed.
 
 (* and the native function is the in-order fringe on well-formed keys, () otherwise *)
 Theorem C18_unravel_spec : forall k,
@@ -98,53 +111,61 @@ Example C18_ex_gbs : gbs_slice_dim true (Some 3) (Some 1) None 5 = Some 0 /\ gbs
 Proof. repeat split; vm_compute; congruence. Qed.
 
 (* ---------------------------------------------------------------------------------------------------------------
-   dimension names on the two paths (Model/C18_Names.v).  The full statements are FALSE of the code (finding D1801):
-   under compile TensorDict.__init__ does not assign the names, and _new_unsafe falls back to __init__. *)
+   dimension names on the two paths (Model/C18_Names.v), after repair D1801: TensorDict.__init__ and the names setter do
+   not ask is_compiling() any more -- the full statements hold; _new_unsafe keeps its compile arm (fallback to __init__). *)
 From TD Require Import Model.C18_Names Proofs.C18_NamesP.
-Definition C18_init_names_dual_full_statement : Prop :=
-  forall bd names, init_names true bd names = init_names false bd names.
-Definition C18_names_set_dual_full_statement : Prop :=
-  forall bd cur value, names_set true bd cur value = names_set false bd cur value.
+Theorem C18_init_names_dual : forall bd names, init_names true bd names = init_names false bd names.
+Proof. exact init_names_dual. Qed.
+Print Assumptions C18_init_names_dual.
 
-Theorem C18_init_names_dual_refuted : exists bd names,
-  observe_names bd (init_names true bd names) <> observe_names bd (init_names false bd names).
-Proof. exact init_names_dual_refuted. Qed.
-Print Assumptions C18_init_names_dual_refuted.
+Theorem C18_names_set_dual : forall bd cur value, names_set true bd cur value = names_set false bd cur value.
+Proof. exact names_set_dual. Qed.
+Print Assumptions C18_names_set_dual.
 
-Theorem C18_init_names_dual_partial : forall bd names,
-  (names = None \/ exists v, names = Some v /\ count_none v = bd) ->
-  init_names true bd names = init_names false bd names.
-Proof. exact init_names_dual_partial. Qed.
-Print Assumptions C18_init_names_dual_partial.
+(* _new_unsafe keeps a compile arm (a plain TensorDict is built through __init__ without names, then the names are stored
+   unchecked as on the eager path): the two arms store the same raw state for every class and every names argument *)
+Theorem C18_new_unsafe_names_dual : forall bd cls_is_td names,
+  new_unsafe_names true cls_is_td bd names = new_unsafe_names false cls_is_td bd names.
+Proof. exact new_unsafe_names_dual. Qed.
+Print Assumptions C18_new_unsafe_names_dual.
 
-Theorem C18_new_unsafe_names_dual_refuted : exists bd names,
-  observe_names bd (new_unsafe_names true true bd names) <> observe_names bd (new_unsafe_names false true bd names).
-Proof. exact new_unsafe_names_dual_refuted. Qed.
-Print Assumptions C18_new_unsafe_names_dual_refuted.
+Theorem C18_new_unsafe_names_stores : forall compile cls_is_td bd names,
+  new_unsafe_names compile cls_is_td bd names = NOk names.
+Proof. exact new_unsafe_names_stores. Qed.
+Print Assumptions C18_new_unsafe_names_stores.
 
-Theorem C18_new_unsafe_names_dual_partial : forall bd names,
-  new_unsafe_names true false bd names = new_unsafe_names false false bd names
-  /\ new_unsafe_names true true bd None = new_unsafe_names false true bd None.
-Proof. intros bd names. split; [apply new_unsafe_names_dual_subclass|apply new_unsafe_names_dual_partial]. Qed.
-Print Assumptions C18_new_unsafe_names_dual_partial.
-
-Theorem C18_names_set_dual_refuted : exists bd cur value,
-  observe_names bd (names_set true bd cur value) <> observe_names bd (names_set false bd cur value).
-Proof. exact names_set_dual_refuted. Qed.
-Print Assumptions C18_names_set_dual_refuted.
-
-(* the setter agrees on a tensordict that is not named yet (any value, valid or not), and for any value that names a dimension *)
-Theorem C18_names_set_dual_partial : forall bd cur value,
-  (cur = None \/ exists v, value = Some v /\ count_none v <> bd) ->
-  names_set true bd cur value = names_set false bd cur value.
+(* the code before the repair (finding D1801, the [_unrepaired] definitions) fails each of the three statements: the theorems
+   above have bite *)
+Theorem C18_names_unrepaired_refuted :
+  (exists bd names, observe_names bd (init_names_unrepaired true bd names) <> observe_names bd (init_names_unrepaired false bd names))
+  /\ (exists bd names, init_names_unrepaired false bd names = NValueError /\ init_names_unrepaired true bd names = NOk None)
+  /\ (exists bd cur value,
+        observe_names bd (names_set_unrepaired true bd cur value) <> observe_names bd (names_set_unrepaired false bd cur value))
+  /\ (exists bd names,
+        observe_names bd (new_unsafe_names_unrepaired true true bd names) <> observe_names bd (new_unsafe_names_unrepaired false true bd names)).
 Proof.
-  intros bd cur value [->|[v [-> H]]]; [apply names_set_dual_unnamed|now apply names_set_dual_naming].
+  split; [exact init_names_unrepaired_refuted|split; [exact init_names_unrepaired_rejects_refuted|
+  split; [exact names_set_unrepaired_refuted|exact new_unsafe_names_unrepaired_refuted]]].
 Qed.
-Print Assumptions C18_names_set_dual_partial.
+Print Assumptions C18_names_unrepaired_refuted.
+
+(* what the setter does with what it accepts: stores the value, or erases when no dimension is named *)
+Theorem C18_names_set_stores : forall bd compile cur v,
+  (forall s, names_set compile bd cur (Some v) = NOk s -> s = None \/ s = Some v)
+  /\ (count_none v = bd -> names_set compile bd cur (Some v) = NOk None).
+Proof. intros bd c cur v. split; [intros s; apply names_set_ok|apply names_set_erases]. Qed.
+Print Assumptions C18_names_set_stores.
 
 Example C18_ex_names : names_set true 2%nat None (Some [Some "u"; None]) = NOk (Some [Some "u"; None])
-  /\ names_set false 2%nat None (Some [Some "u"; Some "u"]) = NValueError /\ count_none [Some "u"; None] <> 2%nat.
+  /\ names_set false 2%nat None (Some [Some "u"; Some "u"]) = NValueError /\ count_none [Some "u"; None] <> 2%nat
+  /\ init_names true 2%nat (Some [Some "u"; Some "v"]) = NOk (Some [Some "u"; Some "v"])
+  /\ init_names true 1%nat (Some [Some "u"; Some "v"]) = NValueError
+  /\ names_set true 1%nat (Some [Some "a"]) None = NOk None.
 Proof. repeat split; vm_compute; congruence. Qed.
+Example C18_ex_new_unsafe : new_unsafe_names true true 2%nat (Some [Some "u"; None]) = NOk (Some [Some "u"; None])
+  /\ new_unsafe_names_unrepaired true true 2%nat (Some [Some "u"; None]) = NOk None
+  /\ new_unsafe_names true true 1%nat (Some [Some "a"; Some "b"]) = new_unsafe_names false true 1%nat (Some [Some "a"; Some "b"]).
+Proof. repeat split; reflexivity. Qed.
 
 (* ---------------------------------------------------------------------------------------------------------------
    memo tables / @cache: eager consults and fills, compile bypasses.  For ANY interleaving of eager and compiled calls on
